@@ -129,6 +129,7 @@ def run_proc(argv, mode_rng=None, fault=None, events=None, schedule=None, cost=1
             sched.run_scheduled(sim, body)
             r = box["r"]
             r.sim = sim
+            _SIGS.append(sim.signature())
         else:
             ctx = session.SessionCtx(trigger=trigger)
             ctx.cost_per_guess = stand_in_cost
@@ -162,7 +163,18 @@ def gen_world(t):
     return worlds.gen_syn(t, allow_m=True, max_pts=200, max_structs=3, max_vars=3, hostile=t.chance(1, 4))
 
 
+_SIGS = []
+
+
 def run_one(tape, tier, prop):
+    del _SIGS[:]
+    res = _run_one(tape, tier, prop)
+    if _SIGS:
+        res.interleaving = tuple(map(repr, _SIGS))
+    return res
+
+
+def _run_one(tape, tier, prop):
     res = RunResult()
     t = tape
     spec = gen_world(t)
